@@ -126,7 +126,11 @@ type OpaqueV struct{ Name string }
 type Ptr struct {
 	Obj  int
 	Path string // "/"-joined component indexes, "" = whole object
+	RO   bool   // the slot stands for every slot selected by a class of input bytes (all hold the same value): loads only
 }
+
+// WrapErrV is the dynamic value of an error made by fmt.Errorf with %w: it wraps Inner (errors.Is / Unwrap see through it).
+type WrapErrV struct{ Inner Val }
 
 // StructV / ArrayV are composite values (stored inline in objects or registers).
 type StructV struct{ F []Val }
@@ -347,6 +351,8 @@ func fmtVal(v Val, ptrName func(int) string) string {
 		return fmt.Sprintf("slice(%s.%s,%d,%d,%d)", ptrName(x.Obj), x.Path, x.Lo, x.Len_, x.Cap)
 	case IfaceV:
 		return "iface(" + x.T.String() + ":" + fmtVal(x.V, ptrName) + ")"
+	case WrapErrV:
+		return "wraps<" + fmtVal(x.Inner, ptrName) + ">"
 	case *FuncV:
 		parts := make([]string, len(x.Bind))
 		for i, f := range x.Bind {
@@ -406,6 +412,8 @@ func valRefs(v Val, out *[]int) {
 		}
 	case IfaceV:
 		valRefs(x.V, out)
+	case WrapErrV:
+		valRefs(x.Inner, out)
 	case RValue:
 		if x.Addr {
 			*out = append(*out, x.P.Obj)
